@@ -86,6 +86,11 @@ func (w *mtlsWalker) expr(e ast.Expr) {
 			})
 			return false
 		case *ast.CallExpr:
+			if id, isId := x.Fun.(*ast.Ident); isId && (id.Name == "copy" || id.Name == "append" || id.Name == "clear") && len(x.Args) > 0 {
+				if _, ok := w.keysAccess(x.Args[0]); ok && id.Name != "append" { // copy(r.keys, ...), clear(r.keys): in-place write
+					w.ok = false
+				}
+			}
 			if op, ok := w.lockCall(x); ok {
 				if w.depth > 0 {
 					w.ok = false
@@ -121,11 +126,27 @@ func (w *mtlsWalker) stmt(s ast.Stmt) {
 		w.ok = false
 	case *ast.AssignStmt:
 		for _, r := range x.Rhs {
+			// `ks := r.keys` creates an alias of the backing array that outlives the lock: not the copy-then-swap shape
+			if _, alias := w.keysAccess(r); alias {
+				w.ok = false
+			}
+			if sl, isSlice := r.(*ast.SliceExpr); isSlice {
+				if _, alias := w.keysAccess(sl.X); alias {
+					w.ok = false
+				}
+			}
 			w.expr(r)
 		}
 		for _, l := range x.Lhs {
 			if obj, ok := w.keysAccess(l); ok {
 				w.ops = append(w.ops, mtlsOp{5, obj})
+			} else if ix, isIx := l.(*ast.IndexExpr); isIx {
+				if obj, ok := w.keysAccess(ix.X); ok { // in-place element write
+					w.ops = append(w.ops, mtlsOp{5, obj})
+					w.ok = false
+				} else {
+					w.expr(l)
+				}
 			} else {
 				w.expr(l)
 			}
